@@ -1591,18 +1591,19 @@ class Compiler:
 
         condition = template("TARGET is not None", TARGET=target, mode="eval")
 
-        if node.filters:
-            condition = ast.BoolOp(
-                values=[condition, filter_condition],
-                op=ast.And(),
-            )
-
-        return body + template(
+        body += template(
             "if CONDITION: __append(FORMAT % TARGET)",
             FORMAT=ast.Constant(attr_format),
             TARGET=target,
             CONDITION=condition,
         )
+
+        # An attribute that a later dictionary provides is not rendered;
+        # its expression is not evaluated either.
+        if node.filters:
+            body = [ast.If(test=filter_condition, body=body, orelse=[])]
+
+        return body
 
     def visit_DictAttributes(self, node):
         target = identifier("attr", id(node))
